@@ -149,7 +149,8 @@ fn gen_case(r: &mut Prng, big: bool) -> Case {
     }
     let nthreads = if long_history { 1 } else { 1 + r.usize(if big { 4 } else { 3 }) };
     for _ in 0..nthreads {
-        let nops = if long_history { 60 + r.usize(200) } else { 1 + r.usize(if big { 6 } else { 4 }) };
+        // one long history in five is VERY long (1000..2000 operations)
+        let nops = if long_history { if r.chance(1, 5) { 1000 + r.usize(1000) } else { 60 + r.usize(200) } } else { 1 + r.usize(if big { 6 } else { 4 }) };
         let mut ops = vec![];
         for _ in 0..nops {
             let (prog, ctx) = if long_history && r.chance(2, 3) { pool[pool.len() - 2 + r.usize(2)].clone() } else { r.pick(&pool).clone() };
